@@ -77,10 +77,12 @@ class OrderFacts:
         if isinstance(test, ast.Compare) and len(test.ops) == 1:
             a, b, op = _unwrap_scalar(test.left), _unwrap_scalar(test.comparators[0]), type(test.ops[0])
             # normalise to  small < big  being known
+            # IEEE: only the TRUE edge of a strict comparison establishes an order; `not (a >= b)` also
+            # holds when a is NaN, and a NaN trial value must never be recorded as "better"
             small = big = None
-            if (op is ast.Lt and lab) or (op is ast.GtE and not lab):
+            if op is ast.Lt and lab:
                 small, big = a, b
-            elif (op is ast.Gt and lab) or (op is ast.LtE and not lab):
+            elif op is ast.Gt and lab:
                 small, big = b, a
             if small is not None and isinstance(small, ast.Name) and self.le(big, st):
                 return st | {("LT", small.id)}
